@@ -9,7 +9,7 @@ from harness import c06_schema as S
 PROP = "C20"
 COQ = dict(imports=["Model.Schema", "Model.Diff", "Model.Filters", "Spec.C06", "Spec.C07", "Spec.C20"], in_ty="c20_in",
            out_ty="c20_out", corr="corr_C20", decide="check_C20", inclass="inclass_C20", model="model_C20")
-THEOREMS = ["C20_object_filter", "C20_name_filter", "C20_conservative", "C20_decider_sound", "C20_model_holds"]
+THEOREMS = ["C20_object_filter", "C20_name_filter", "C20_conservative", "C20_name_absent", "C20_decider_sound", "C20_model_holds"]
 TRUSTED = [
     "reflect_sqlite / type catalogue / abstraction functions of harness/c06_schema.py, as for C06",
     "the harness' mapping of a filter invocation (object, name, type_, reflected, compare_to) / (name, type_, parent_names) to "
@@ -21,6 +21,9 @@ ASSUME = [
     "branch), tables in ATTACHed databases seen as schemas with include_schemas=True (schema name filter, schema-qualified parent "
     "names); CHECK constraints and expression indexes decorate some schemas and must stay invisible",
     "C20_conservative assumes the metadata has no unnamed unique constraint; outside, the decider and the exact correspondence speak",
+    "the decider (C20_holds) also requires every include_name call of the specification to be observed and the filtered operations to be "
+    "those of the specification diff_f; C20_name_absent says what diff_f is without an object filter: the plain comparison of the "
+    "database with the name-rejected objects removed",
     "acc (the objects 'neither filter rejects'): the operation's own names are accepted, the include_object calls the unfiltered "
     "comparison makes for its table and object say yes, and - foreign keys being matched by signature - no reflected foreign key with "
     "the signature of an added key is name-rejected",
